@@ -42,7 +42,8 @@ def run(pid, tier, seed, replay=None):
         ck.cov["traces_validated_against_impl"] = len(rows)
         ck.cov["evaluations"] = summ["points"]
         ck.cov["distinct_nontrivial"] = len(cases)
-        ck.cov["rule"] = "TLC-enumerated (table, grid) cases: 4 axes (orders 0..3, irregular knots) x 5 abscissa lists per dimension, all 1-D combinations and thinned 2-D / 3-D combinations; every interior grid point compared; every table also with its coefficients scaled by 2^-40, 2^-70, 2^-100, 2^40 (exactly scaled oracle)"
+        ck.cov["cases_per_dimension_count"] = {str(n): sum(1 for c in cases if len(c["order"]) == n) for n in (1, 2, 3, 4)}
+        ck.cov["rule"] = "TLC-enumerated (table, grid) cases: 4 axes (orders 0..3, irregular knots) x 5 abscissa lists per dimension, all 1-D combinations and thinned 2-D / 3-D / 4-D combinations; every interior grid point compared; every table also with its coefficients scaled by 2^-40, 2^-70, 2^-100, 2^40 (exactly scaled oracle)"
         return ck.finish(exhaustive=False)
     finally:
         if not os.environ.get("VERIF_KEEP"):
